@@ -11,10 +11,12 @@ import thermosteam as tmo
 from symx import core
 from . import common as C
 from . import streams as S
+from . import c11
 
 ID = 'C14'
 REAL_REPLAY = False
-STUBS = ['thermo.mixture: every property method returns an uninterpreted function of (name, phase, composition vector, T, P)']
+STUBS = ['thermo.mixture: every property method returns an uninterpreted function of (name, phase, composition vector, T, P)',
+         '(volumetric reads) Chemical.V: a positive unknown per (chemical, phase, T, P), T and P from small concrete sets, as in C11']
 ASSUMPTIONS = ['flows > 0 (zeros only through explicit emptying), T in (200, 600), P in (1e3, 1e7)',
                'state is mutated through public mutators: T/P/phase setters, imol writes, scale, mix_from, F_mol, link/proxy/phase views']
 OUTSIDE = ['sequences longer than the stated depth', 'property-package change (set_thermo) sequences', 'more than 2 chemicals']
@@ -33,6 +35,7 @@ def setup(mode):
     if sym:
         C.patch(S.SYM_MODULES)
         C.setg(C.mod('thermosteam.base.sparse').SparseVector, 'dtype', core.symfloat)
+    c11.install(sym)        # package with unknown molar volumes V_i(phase, T, P) for the volumetric reads
 
 
 class StubMixture:
@@ -309,5 +312,9 @@ def groups(tier):
         'stream+proxy': (g_proxy(d, ['H'] if q else ['H', 'mu']), dict(max_paths=3000000)),
         'stream+linked': (g_link(3 if q else 4, ['H']), dict(max_paths=3000000)),
         'multistream+views': (g_multi(3 if q else 4, ['H', 'mu']), dict(max_paths=3000000)),
+        # per-chemical volumetric flows (quantities derived from the molar volumes) of linked streams: C11's
+        # sequence explorer restricted to link -> state change / write on either stream
+        'volumetric-reads-of-linked-streams': (c11.g_sequences(2, ['l'], [['link'], ['phase:=', 'T:=', 'write', 'write-other', 'unlink-other']]),
+                                               dict(max_paths=400000, qtimeout_ms=20000)),
         'mutators': (g_mutators(3 if q else 4, props), dict(max_paths=3000000)),
     }
